@@ -185,3 +185,40 @@ func hRefEqNum(a, b mval) bool {
 	}
 	return hRefEq(a, b)
 }
+
+// acyclic trees in which the same container instance is reachable twice (diamonds): NewListOf of a container,
+// one list under two keys, a leaf shared across levels — String() writes it out in full at every place
+func hDiamond() any {
+	x := nondetInt()
+	verifAssume(verifAnd(x >= 0, x < 10))
+	inner := NewList(x, "s")
+	io := NewObject("q", inner)
+	switch nondetIntRange(0, 4) {
+	case 0:
+		return NewList(inner, inner)
+	case 1:
+		return NewObject("a", inner, "b", inner)
+	case 2:
+		return NewListOf(io, 2)
+	case 3:
+		return NewList(inner, io, NewList(io))
+	default:
+		return NewObject("a", io, "b", NewObject("c", io, "d", inner))
+	}
+}
+
+func H_C02_shared_child() {
+	c := hDiamond()
+	before := hSnapAny(c)
+	var out string
+	p := verifCatch(func() { out = hStringAny(c) })
+	verifAssert(!p, "String() of an acyclic tree does not panic")
+	if !p {
+		got, ok := refParse(out)
+		verifAssert(ok, "String() is one syntactically valid RFC 8259 text")
+		if ok {
+			verifAssert(hExact(before, got), "a decoder recovers the same nesting, order, key set and scalars")
+		}
+	}
+	verifReach("end")
+}
